@@ -1,7 +1,7 @@
 (* generated: tie of one numeric kernel to the hand model *)
 From Coq Require Import ZArith List Bool String.
 Import ListNotations.
-From OSQ Require Import Num IR Construct DefaultTable Matrix Check ABA Merge McKay CNOTDec Constants ConstCheck Kernels KernelTactics.
+From OSQ Require Import Num IR Construct DefaultTable Matrix Check ABA Merge McKay CNOTDec Constants Kernels KernelTactics.
 
 Lemma compose_ok : forall (T : Type) (N : Num T) (qa : Z) (axa : axis3 T) (anga pha : T) (gia : ginfo T)
     (qb : Z) (axb : axis3 T) (angb phb : T) (gib : ginfo T),
